@@ -162,6 +162,8 @@ def r_rmse(ctx: Ctx, model):
         I.sympy_mode = True
         I.ext["numpy.sqrt"] = lambda I, a, k, n: sp.sqrt(a[0])
         I.ext["numpy.mean"] = lambda I, a, k, n: sum(a[0].items) / len(a[0].items)
+        I.ext["numpy.square"] = lambda I, a, k, n: Vec([x**2 for x in a[0].items]) if isinstance(a[0], Vec) else a[0]**2
+        I.ext["numpy.linalg.norm"] = lambda I, a, k, n: sp.sqrt(sum(x**2 for x in a[0].items))
         env = {"__module__": vfit.module.name if hasattr(vfit, "module") else "pygaps.modelling.virial",
                "opt_res": Obj(kind="OptRes", label="res", attrs={"fun": Vec(list(r)), "x": Vec([S("ra")])}),
                "loading": Vec([S(f"l{i}") for i in range(3)]), "pressure": Vec([S(f"p{i}") for i in range(3)])}
